@@ -1307,8 +1307,14 @@ class AdbDevice(object):
         msg = AdbMessage(constants.WRTE, adb_info.local_id, adb_info.remote_id, filesync_info.send_buffer[:filesync_info.send_idx])
         self._io_manager.send(msg, adb_info)
 
-        # Expect an 'OKAY' in response
-        self._read_until([constants.OKAY], adb_info)
+        # Expect an 'OKAY' in response; a 'WRTE' packet that arrives first (e.g., the device's 'FAIL' message) is kept for `_filesync_read`
+        start = time.time()
+        cmd, data = self._read_until([constants.OKAY, constants.WRTE], adb_info)
+        while cmd == constants.WRTE:
+            filesync_info.recv_buffer += data
+            if time.time() - start > adb_info.read_timeout_s:
+                raise exceptions.AdbTimeoutError("Never got an OKAY for the data that was sent (read_timeout_s = {})".format(adb_info.read_timeout_s))
+            cmd, data = self._read_until([constants.OKAY, constants.WRTE], adb_info)
 
         # Reset the send index
         filesync_info.send_idx = 0
